@@ -829,6 +829,7 @@ func c14condNegation(p *core.Prog, res *core.Result, fi *core.FuncInfo, prefix s
 type coreOp struct {
 	tok  token.Token
 	expr ast.Expr
+	cmp  *ast.BinaryExpr // the relational comparison inside expr (single-comparison arms)
 	pos  token.Pos
 }
 
@@ -867,9 +868,24 @@ func c14coreOps(p *core.Prog, fi *core.FuncInfo) (map[string]coreOp, *types.Info
 				}
 			}
 			if last != nil {
+				// drop bare Boolean conjuncts (success flags of cast helpers): ok && v > c
+				var strip func(e ast.Expr) ast.Expr
+				strip = func(e ast.Expr) ast.Expr {
+					if b, ok := ast.Unparen(e).(*ast.BinaryExpr); ok && b.Op == token.LAND {
+						if _, isId := ast.Unparen(b.X).(*ast.Ident); isId {
+							return strip(b.Y)
+						}
+						if _, isId := ast.Unparen(b.Y).(*ast.Ident); isId {
+							return strip(b.X)
+						}
+					}
+					return e
+				}
+				core := strip(last)
 				op := coreOp{expr: last, pos: last.Pos()}
-				if b, ok := ast.Unparen(last).(*ast.BinaryExpr); ok {
+				if b, ok := ast.Unparen(core).(*ast.BinaryExpr); ok {
 					op.tok = b.Op
+					op.cmp = b
 				}
 				out[name] = op
 			}
@@ -969,11 +985,24 @@ func c14operators(p *core.Prog, res *core.Result, condFn, hasFn, coreFn *core.Fu
 				res.Unres("Y3", key, p.Pos(sw.Pos()), "comparison of the core evaluator for "+cn+" not recognised")
 				continue
 			}
-			// orientation: value OP bound
+			// orientation: value OP bound — operand roles come from the cast arguments (C08's analysis)
 			tok := co.tok
-			if b, ok := ast.Unparen(co.expr).(*ast.BinaryExpr); ok {
-				if strings.HasPrefix(types.ExprString(b.X), "cond") && !strings.HasPrefix(types.ExprString(b.Y), "cond") {
+			if co.cmp != nil {
+				rl, _, _, _ := c08origins(p, cinfo, coreFn.Decl, nil)
+				roleOf := func(e ast.Expr) string {
+					if id, ok := ast.Unparen(e).(*ast.Ident); ok {
+						return rl[cinfo.Uses[id]]
+					}
+					return ""
+				}
+				lx, ry := roleOf(co.cmp.X), roleOf(co.cmp.Y)
+				switch {
+				case lx == "c" && ry == "v":
 					tok = flipTok(tok)
+				case lx == "v" && ry == "c":
+				default:
+					res.Unres("Y3", key, p.Pos(co.pos), "operands of the core comparison are not recognised as (value, bound): "+types.ExprString(co.cmp))
+					continue
 				}
 			}
 			if c14dict[tok] != op {
